@@ -48,7 +48,9 @@ RULE = ('program = class (LockedMachine / LockedHierarchicalMachine), machine_co
         'stale trigger (leaves an empty defaultdict entry) -> add_model(m again, alone / after a registered model / twice / '
         'with a new model); then two or more threads send events to m; everything outside the stale call itself must agree '
         'with the model and satisfy the oracle). %d sampled schedules per program '
-        '(random bursts, then two completion passes); in about a third of the std/setup programs (and 2 in every 20 whatever the '
+        '(random bursts, then two completion passes); a quarter of the std/setup programs (and 2 in every 20 whatever the seed) use '
+        'Machine(queued=True): triggers from callbacks return True at once and are processed afterwards by the same call (FIFO, '
+        'an exception clears the queue), a trigger from another thread must wait and returns after its event was processed; in about a third of the std/setup programs (and 2 in every 20 whatever the '
         'seed) model 0 is THE MACHINE ITSELF (model=\'self\', via the constructor or add_model(\'self\', model_context=..)), and '
         'in about 35%% of all programs the whole machine (callbacks by name, picklable instrumented contexts and models) goes '
         'through a pickle or deepcopy round trip before the threads start - afterwards every event on every model must '
@@ -62,7 +64,9 @@ RULE = ('program = class (LockedMachine / LockedHierarchicalMachine), machine_co
         'left-the-envelope flag. Oracle on the implementation alone: no overlap, serial replay, contexts held in the order '
         'CONFIGURED by the add_model/remove_model calls completed so far (an independent reading of what they configure), '
         'final model_context_map = that configuration. Extra check on every run: every public method of both classes, '
-        'enumerated by reflection, enters the machine contexts when called from a thread that is not inside. Non-trivial: the schedule produced at least one blocked attempt '
+        'enumerated by reflection, enters the machine contexts when called from a thread that is not inside; re-entrancy is per '
+        'machine (12 scenarios with TWO locked machines: a callback of A calls an event / method of B - B\'s contexts must be '
+        'entered and left around it; implementation-level, two machines are not modelled in Coq). Non-trivial: the schedule produced at least one blocked attempt '
         '(real contention) or a nested call; distinct by case hash.' % SCHEDULES_PER_PROGRAM)
 ASSUMPTIONS = [
     'PARTIAL: threading.Lock, threading.get_ident and the GIL are assumed to behave as the mutex / thread identity / '
@@ -98,7 +102,7 @@ def enc(case):
     return [case.get('mode', 0),
             [case['mctx'] or [0], bool(hier)],
             [case['states'], [list(t) for t in case['trans']],
-             [[m, s, bool(r), list(cx)] for m, s, r, cx in case['models']]],
+             [[m, s, bool(r), list(cx)] for m, s, r, cx in case['models']], bool(case.get('queued'))],
             [[c[0], c[1], c[2], c[3], c[4], [list(x) for x in c[5]], list(c[6]), list(c[7])] for c in case['calls']],
             [list(p) for p in case['progs']],
             list(case['sched']),
@@ -286,9 +290,11 @@ def gen_program(rng, p):
         self_model = 0                                # model 0 is a registered event target in these streams
     if rng2.random() < 0.3 or p % 20 in (3, 12):
         roundtrip = 1 if (rng2.random() < 0.65 or p % 20 == 3) else 2
+    # Machine(queued=True): triggers from callbacks are only appended and processed by the same call afterwards
+    queued = stream in ('std', 'setup') and (rng2.random() < 0.25 or p % 20 in (5, 14))
     return dict(cls=cls, mctx=mctx, models=models, states=[0, 1, 2], trans=trans, calls=calls, progs=progs,
                 sched=[], mode=0, stream=stream, stale_calls=stale, fails=fails, self_model=self_model,
-                roundtrip=roundtrip)
+                roundtrip=roundtrip, queued=queued)
 
 
 def completion_suffix(nt, k=70):
@@ -552,6 +558,7 @@ class Run(object):
         self.machine = cls(model=('self' if by_ctor else None), states=['s%d' % s for s in case['states']],
                            initial=('s%d' % s0 if by_ctor else 's0'),
                            auto_transitions=False, send_event=True, ignore_invalid_triggers=True,
+                           queued=bool(case.get('queued')),
                            prepare_event=['c06cb0'], before_state_change=['c06cb1'],
                            after_state_change=['c06cb2'], finalize_event=['c06cb3'], **kw)
         self.models = {}
@@ -1018,6 +1025,8 @@ def stats(case, obs, dist):
     if any(cx for _, _, _, cx in case['models']):
         inc('with_model_context')
     inc('stream_' + case.get('stream', 'std'))
+    if case.get('queued'):
+        inc('queued_machine')
     if case.get('self_model') is not None:
         inc('machine_is_its_own_model')
     if case.get('roundtrip'):
@@ -1136,10 +1145,89 @@ def public_methods_enter_contexts():
             dict(methods_checked=counted, classes=list(CLASSES), not_locked=missing), payload)
 
 
+class _NamedProbe(object):
+    def __init__(self, name, log):
+        self.name, self.log = name, log
+
+    def __enter__(self):
+        self.log.append('enter ' + self.name)
+
+    def __exit__(self, *exc):
+        self.log.append('exit ' + self.name)
+        return False
+
+
+def reentrancy_is_per_machine():
+    """Two locked machines in one program (implementation-level check; the Coq model has ONE machine): while a thread
+    is inside machine A (in a callback of A) it calls machine B - an event on B's model or a method of B.  Owning A
+    does not make it the owner of B: B's machine contexts (and, for LockedMachine events, B's model contexts) must be
+    entered, in order, around the processing on B and left again before A's callback continues; afterwards a call
+    on B from the same thread outside A enters them again, and A is still re-entrant for its own thread."""
+    flat._import_transitions()
+    failures, scenarios = [], 0
+    for ca in CLASSES:
+        for cb in CLASSES:
+            for what in ('event', 'method', 'event_queuedB'):
+                scenarios += 1
+                log = []
+                ma_model, mb_model = Model(), Model()
+                B = flat.get_class(cb)(model=None, states=['A', 'B'], initial='A', auto_transitions=False,
+                                       queued=(what == 'event_queuedB'),
+                                       machine_context=[_NamedProbe('B.machine', log)],
+                                       before_state_change=[lambda: log.append('callback of B')])
+                B.add_model(mb_model, model_context=[_NamedProbe('B.model', log)])
+                B.add_transition('go', 'A', 'B')
+
+                def in_a():
+                    log.append('callback of A begins')
+                    if what == 'method':
+                        B.set_state('B', mb_model)
+                    else:
+                        mb_model.go()
+                    A.get_state('A')                   # A stays re-entrant for its own thread
+                    log.append('callback of A ends')
+                A = flat.get_class(ca)(model=None, states=['A', 'B'], initial='A', auto_transitions=False,
+                                       machine_context=[_NamedProbe('A.machine', log)], before_state_change=[in_a])
+                A.add_model(ma_model)
+                A.add_transition('go', 'A', 'B')
+                del log[:]
+                box = []
+
+                def body():
+                    try:
+                        ma_model.go()
+                        box.append('ok')
+                    except BaseException as e:  # noqa
+                        box.append('%s: %s' % (type(e).__name__, e))
+                th = threading.Thread(target=body)
+                th.daemon = True
+                th.start()
+                th.join(5)
+                inner = ['enter B.machine']
+                if what != 'method':
+                    if cb not in HIER:
+                        inner.append('enter B.model')          # (hierarchical B: KF-C06-1)
+                    inner.append('callback of B')
+                    if cb not in HIER:
+                        inner.append('exit B.model')
+                inner.append('exit B.machine')
+                want = ['enter A.machine', 'callback of A begins'] + inner + ['callback of A ends', 'exit A.machine']
+                if box != ['ok'] or log != want or mb_model.state != 'B' or ma_model.state != 'B':
+                    failures.append(dict(A=ca, B=cb, call_on_B=what, outcome=box, log=list(log), expected=want))
+    ok = not failures
+    payload = {} if ok else dict(kind='oracle', case=failures[0],
+                                 failing_clause='a thread inside machine A calls machine B: the contexts of B are not '
+                                                'entered/left around the processing on B (re-entrancy must be per '
+                                                'machine): got %r, expected %r' % (failures[0]['log'], failures[0]['expected']))
+    return ('reentrancy_is_per_machine', ok,
+            dict(scenarios=scenarios, failed=len(failures),
+                 level='implementation-level oracle (partial: two machines are not modelled in Coq)'), payload)
+
+
 def extra_checks(tier, seed):
     """every tier: reflection over the public methods; thorough tier: the extracted OCaml model against vm_compute
     inside coqc on a sample (extraction cross-check)"""
-    out = [public_methods_enter_contexts()]
+    out = [public_methods_enter_contexts(), reentrancy_is_per_machine()]
     if tier != 'thorough':
         return out
     cases = gen_batch(seed + 7, 50, 'quick')[::2]
